@@ -27,9 +27,29 @@ def prune_kw(p, tree=False):
     return kw
 
 
+def with_past(est, case, to_X=lambda docs: docs):
+    """The estimator's past (case["history"]): the SAME object is first fitted on another corpus and used for
+    transform; whatever happens there (exceptions included) must be forgotten by the fit that is measured."""
+    h = case.get("history")
+    if h:
+        try:
+            X = to_X(h["docs"])
+            if h.get("how") == "fit":
+                est.fit(X)
+            else:
+                est.fit_transform(X)
+            if h.get("transform") is not None:
+                est.transform(to_X(h["transform"]))
+        except Exception:
+            pass
+    return est
+
+
 def win_kw(w):
     kw = dict(window_radii=w["radius"], window_orientations=w["orientation"], kernel_functions=w["kernel"],
               window_functions=w.get("window_function", "fixed"), normalize_windows=w["normalize_windows"])
+    if w["radius"] > 1000:
+        kw["coo_initial_memory"] = "64k"       # the triple buffers are sized proportionally to the radius
     ka = {}
     if w.get("normalize"):
         ka["normalize"] = True
@@ -43,14 +63,14 @@ def win_kw(w):
 def run_cooc(case):
     X, p, w, M = case["docs"], case["prune"], case["window"], case["mask"]
     out = {}
-    base = TokenCooccurrenceVectorizer(**prune_kw(p), **win_kw(w))                      # (a) delete mode
+    base = with_past(TokenCooccurrenceVectorizer(**prune_kw(p), **win_kw(w)), case)     # (a) delete mode
     out["delete"] = dense(base.fit_transform(X))
     vocab = dict(base.token_label_dictionary_)
     out["vocab"] = [[k, int(v)] for k, v in vocab.items()]
     X_del = [[t for t in d if t in vocab] for d in X]
     ref = TokenCooccurrenceVectorizer(token_dictionary=dict(vocab), **win_kw(w))
     out["delete_ref"] = dense(ref.fit_transform(X_del)) if any(X_del) else None
-    masked = TokenCooccurrenceVectorizer(mask_string=M, **prune_kw(p), **win_kw(w))   # (b) mask mode
+    masked = with_past(TokenCooccurrenceVectorizer(mask_string=M, **prune_kw(p), **win_kw(w)), case)   # (b) mask mode
     out["mask"] = dense(masked.fit_transform(X))
     out["mask_dict"] = [[k, int(v)] for k, v in masked.token_label_dictionary_.items()]
     out["mask_seqs"] = None
@@ -59,11 +79,13 @@ def run_cooc(case):
     X_mask = [[t if t in vocab else M for t in d] for d in X]
     ref2 = TokenCooccurrenceVectorizer(token_dictionary=dict(mvocab), **win_kw(w))
     out["mask_ref"] = dense(ref2.fit_transform(X_mask))
-    null = TokenCooccurrenceVectorizer(mask_string=M, nullify_mask=True, **prune_kw(p), **win_kw(w))  # (c)
+    null = with_past(TokenCooccurrenceVectorizer(mask_string=M, nullify_mask=True, **prune_kw(p), **win_kw(w)), case)  # (c)
     out["nullify"] = dense(null.fit_transform(X))
     out["nullify_dict"] = [[k, int(v)] for k, v in null.token_label_dictionary_.items()]
     out["mask_index"] = None if null._mask_index is None else int(null._mask_index)
     if case.get("transform_docs") is not None:
+        if case.get("history") and case["history"].get("transform") is not None:
+            null.transform(case["history"]["transform"])          # an unrelated transform in between
         out["nullify_transform"] = dense(null.transform(case["transform_docs"]))
         out["mask_transform"] = dense(masked.transform(case["transform_docs"]))
     return out
@@ -83,7 +105,8 @@ def run_tree(case):
     kw = dict(window_radius=case["window"]["radius"], window_orientation=case["window"]["orientation"],
               kernel_function=case["window"]["kernel"])
     out = {}
-    base = LabelledTreeCooccurrenceVectorizer(**prune_kw(p, tree=True), **kw)
+    to_X = lambda ts: [make_tree(t["parents"], t["labels"]) for t in ts]
+    base = with_past(LabelledTreeCooccurrenceVectorizer(**prune_kw(p, tree=True), **kw), case, to_X)
     out["delete"] = dense(base.fit_transform(trees))
     vocab = dict(base.token_label_dictionary_)
     out["vocab"] = [[k, int(v)] for k, v in vocab.items()]
@@ -110,7 +133,7 @@ def run_tree(case):
             dtrees.append(make_tree(npar, nlab))
     ref = LabelledTreeCooccurrenceVectorizer(token_dictionary=dict(vocab), **kw)
     out["delete_ref"] = dense(ref.fit_transform(dtrees)) if dtrees else None
-    masked = LabelledTreeCooccurrenceVectorizer(mask_string=M, **prune_kw(p, tree=True), **kw)
+    masked = with_past(LabelledTreeCooccurrenceVectorizer(mask_string=M, **prune_kw(p, tree=True), **kw), case, to_X)
     out["mask"] = dense(masked.fit_transform(trees))
     out["mask_dict"] = [[k, int(v)] for k, v in masked.token_label_dictionary_.items()]
     mvocab = dict(vocab)
@@ -118,10 +141,20 @@ def run_tree(case):
     mtrees = [make_tree(t["parents"], [l if l in vocab else M for l in t["labels"]]) for t in case["trees"]]
     ref2 = LabelledTreeCooccurrenceVectorizer(token_dictionary=dict(mvocab), **kw)
     out["mask_ref"] = dense(ref2.fit_transform(mtrees))
-    null = LabelledTreeCooccurrenceVectorizer(mask_string=M, nullify_mask=True, **prune_kw(p, tree=True), **kw)
+    null = with_past(LabelledTreeCooccurrenceVectorizer(mask_string=M, nullify_mask=True, **prune_kw(p, tree=True), **kw), case, to_X)
     out["nullify"] = dense(null.fit_transform(trees))
     out["nullify_dict"] = [[k, int(v)] for k, v in null.token_label_dictionary_.items()]
     out["mask_index"] = None if null._mask_index is None else int(null._mask_index)
+    if case.get("transform_trees") is not None:
+        # later use of the fitted estimators (after an unrelated transform when there is a past)
+        Y = to_X(case["transform_trees"])
+        if case.get("history") and case["history"].get("transform") is not None:
+            null.transform(to_X(case["history"]["transform"]))
+        out["nullify_transform"] = dense(null.transform(Y))
+        out["mask_transform"] = dense(masked.transform(Y))
+        mY = [make_tree(t["parents"], [l if l in vocab else M for l in t["labels"]]) for t in case["transform_trees"]]
+        out["mask_transform_ref"] = dense(ref2.transform(mY))
+        out["nullify_dict_after"] = [[k, int(v)] for k, v in null.token_label_dictionary_.items()]
     return out
 
 
@@ -133,7 +166,7 @@ def run_ngram(case):
     X, p, M = case["docs"], case["prune"], case["mask"]
     n, beh = case["ngram"]["n"], case["ngram"]["behaviour"]
     out = {}
-    base = NgramVectorizer(ngram_size=n, ngram_behaviour=beh, **prune_kw(p))
+    base = with_past(NgramVectorizer(ngram_size=n, ngram_behaviour=beh, **prune_kw(p)), case)
     out["delete"] = dense(base.fit_transform(X))
     out["delete_cols"] = cols_out(base.column_label_dictionary_)
     vocab = dict(base._token_dictionary_)
@@ -146,7 +179,7 @@ def run_ngram(case):
         out["delete_ref_cols"] = cols_out(ref.column_label_dictionary_)
     except Exception as e:
         out["delete_ref"] = {"err": type(e).__name__}
-    masked = NgramVectorizer(ngram_size=n, ngram_behaviour=beh, mask_string=M, **prune_kw(p))
+    masked = with_past(NgramVectorizer(ngram_size=n, ngram_behaviour=beh, mask_string=M, **prune_kw(p)), case)
     out["mask"] = dense(masked.fit_transform(X))
     out["mask_cols"] = cols_out(masked.column_label_dictionary_)
     out["mask_dict"] = [[k, int(v)] for k, v in masked._token_dictionary_.items()]
@@ -196,14 +229,14 @@ def run_kernel(case):
         v = TokenCooccurrenceVectorizer(token_dictionary=d, mask_string=M, nullify_mask=case["mask_index"] is not None,
                                         window_radii=case["size"], window_orientations="before" if case["reverse"] else "after",
                                         kernel_functions=case["kernel"], kernel_args=ka or None,
-                                        normalize_windows=bool(case["normalize_windows"]))
+                                        normalize_windows=bool(case["normalize_windows"]), coo_initial_memory="64k")
         # every token of the dictionary must occur so that len(_token_frequencies_) = ntok (the mask index)
         out["matrix"] = dense(v.fit_transform([doc, list(toks)]))
         out["filler"] = dense(TokenCooccurrenceVectorizer(
             token_dictionary=d, mask_string=M, nullify_mask=case["mask_index"] is not None,
             window_radii=case["size"], window_orientations="before" if case["reverse"] else "after",
             kernel_functions=case["kernel"], kernel_args=ka or None,
-            normalize_windows=bool(case["normalize_windows"])).fit_transform([list(toks)]))
+            normalize_windows=bool(case["normalize_windows"]), coo_initial_memory="64k").fit_transform([list(toks)]))
         out["mask_index"] = None if v._mask_index is None else int(v._mask_index)
     return out
 
